@@ -36,7 +36,7 @@ ASSUMPTIONS = c01.ASSUMPTIONS[:3] + [
     "where the ordering graph has a false cycle (open finding C01-false-cycle) the order inside the cycle depends on dict insertion order, hence on history: follow-up differences on such a location are matched by the C01 signature",
 ]
 BOUNDS = {
-    "quick": "histories of <=3 operations (value / expression / += / -= ref / unregister / load / register) over {a,n.x,n.y}, <=2 over {a,n.x,n.y,n.z} and over {a,b,l0,l1}, "
+    "quick": "three prefixes with a task writing the list l as a whole and readers inside it (incl. a computed-key read) followed by <=2 operations over {a,c,l0,l1}; histories of <=3 operations (value / expression / += / -= ref / unregister / load / register) over {a,n.x,n.y}, <=2 over {a,n.x,n.y,n.z} and over {a,b,l0,l1}, "
              "indices/queries/verify compared after every step; follow-up assignment (history manager, refreshed copy, fresh manager) to each location of the universe + one outside it after histories of every length 1..3",
     "thorough": "histories <=4 over the same universes and <=3 over {a,b,n.x,n.y,l0,l1}; both builds",
 }
@@ -284,6 +284,8 @@ class HState(c01.State):
 def run_case(ex, case):
     st = HState(ex, case["build"])
     locs = case["locs"]
+    for op in case.get("prefix", []):
+        st.apply(c01._tup(op))
     for k in range(case["K"]):
         ops = list_ops(st.defs, locs)
         i = case["first"] if k == 0 else ex.choose(len(ops))
@@ -309,11 +311,23 @@ def _cases(build, locs, K):
     return [{"build": build, "locs": locs, "K": K, "first": i} for i in range(n0)]
 
 
+# a task writing a container as a whole (l = pair(a)), a reader inside it, then arbitrary history
+PREFIXES = [
+    [["expr", "l", ["pair", ["loc", "a"]]], ["expr", "b", ["add", ["loc", "l1"], ["const", 1]]]],
+    [["expr", "b", ["add", ["loc", "l1"], ["const", 1]]], ["expr", "l", ["pair", ["loc", "a"]]]],
+    [["expr", "l", ["pair", ["loc", "c"]]], ["expr", "a", ["lidx", ["mod", ["abs", ["loc", "b"]], ["const", 2]]]]],
+]
+
+
 def cases(tier):
     nest = ["a", "n.x", "n.y", "n.z"]
     lst = ["a", "b", "l0", "l1"]
     if tier == "quick":
-        return (_cases("pure", ["a", "n.x", "n.y"], 3) + _cases("pure", nest, 2) + _cases("pure", nest, 1)
+        pref = []
+        for pf in PREFIXES:
+            for c in _cases("pure", ["a", "c", "l0", "l1"], 2):
+                pref.append(dict(c, prefix=pf))
+        return pref + (_cases("pure", ["a", "n.x", "n.y"], 3) + _cases("pure", nest, 2) + _cases("pure", nest, 1)
                 + _cases("pure", lst, 2) + _cases("pure", lst, 1))
     out = []
     for b in ("pure", "compiled"):
